@@ -23,6 +23,11 @@ func (core *JApiCore) buildCatalog() *jerr.JApiError {
 		return core.directivesWithPastes[0].KeywordError(jerr.DirectiveJSIGHTShouldBeTheFirst)
 	}
 
+	// MACRO definitions are not in the list above, but JSIGHT has to precede them too.
+	if core.firstDirective != nil && core.firstDirective.Type() != directive.Jsight {
+		return core.firstDirective.KeywordError(jerr.DirectiveJSIGHTShouldBeTheFirst)
+	}
+
 	return core.addDirectives()
 }
 
